@@ -461,7 +461,7 @@ Qed.
 
 Theorem tocsc_ok r : wf_cs r ->
   wf_cs (tocsc r) /\ sorted_cs (tocsc r) /\ dense_of (tocsc r) = transpose (minor r) (dense_of r).
-Proof. intros W. destruct (swap_major_ok r W) as (A & B & _ & _ & C & _). repeat split; assumption. Qed.
+Proof. intros W. destruct (swap_major_ok r W) as (A & B & _ & _ & C & _). split; [exact A|split; [exact B|exact C]]. Qed.
 
 Theorem tocsr_ok r : wf_cs r ->
   wf_cs (tocsr r) /\ sorted_cs (tocsr r) /\ dense_of (tocsr r) = transpose (minor r) (dense_of r).
